@@ -27,7 +27,7 @@ PROPS['C01'] = dict(
     assumptions=FIBER_ASSUME,
     technique='rapidcheck-generated (program, schedule) cases + bounded-exhaustive schedule enumeration against an '
               'exactly-once / equality / balance oracle',
-    level_text='All 336 producer x consumer x payload x executor programs are run under every schedule with at most 2 '
+    level_text='All 378 producer x consumer x payload x executor programs are run under every schedule with at most 2 '
                '(quick) / 3 (thorough) preemptions plus one spurious CAS failure, and under 3e5 / 6e6 random schedules; '
                'each run is checked for exactly-once delivery of an equal Result, Ready() => readable, nothing early, '
                'nothing after a dropped Future, Tracked and heap balance, no deadlock. Held on everything explored; '
